@@ -20,7 +20,8 @@ def run(tier, seed):
     vlib.build_harness()
     scen = os.path.join(vlib.sub("scn"), "merge.ndjson")
     if tier == "quick":
-        res, n = mc.generate("quick", mc.QUICK, scen, commit_every=5, scale_every=60)
+        # quick: every other pair of the quick universe, rotated by the seed (thorough runs a larger universe in full)
+        res, n = mc.generate("quick", mc.QUICK, scen, commit_every=5, scale_every=60, keep=lambda i: i % 2 == seed % 2)
     else:
         res, n = mc.generate("thorough", mc.THOROUGH, scen, commit_every=4, scale_every=50)
     out = vlib.replay("merge", scen, timeout=120)
